@@ -69,9 +69,13 @@ def replay_gen(chk: Check, cfg, states, qseq, tier):
             if not np.array_equal(tb, want_tb, equal_nan=True):
                 report(chk, bs, d, ps, p, aff, None, "total_bounds", tb.tolist(), want_tb.tolist())
             Qa = Q if aff is None else Q * aff[0] + aff[1]
+            held = []               # history: answers are kept while later queries run on the same index, and looked at again afterwards
             for qi in range(len(qseq)):
                 q = tuple(Qa[qi])
-                got = sorted(int(x) for x in tree.intersects(q))
+                raw = tree.intersects(q)
+                got = sorted(int(x) for x in raw)
+                if qi % 4 == 0:
+                    held.append((qi, raw, got))
                 chk.count()
                 want_i, want_c = sorted(ans[qi][0]), sorted(ans[qi][1])
                 if got != want_i:
@@ -81,6 +85,11 @@ def replay_gen(chk: Check, cfg, states, qseq, tier):
                 want_o = sorted(set(want_i) - set(want_c))
                 if cov != want_c or ov != want_o:
                     report(chk, bs, d, ps, p, aff, qseq[qi], "covers_overlaps", [cov, ov], [want_c, want_o])
+            for qi, raw, got in held:
+                if sorted(int(x) for x in raw) != got:
+                    report(chk, bs, d, ps, p, aff, qseq[qi], "intersects (the returned array, looked at again after later queries on the same index)",
+                           sorted(int(x) for x in raw), got)
+                    break
         # GeometryArray.sindex on an array whose element bounds are the boxes (2-d only)
         if d == 2 and n and si % 3 == 0:
             elems = []
